@@ -55,7 +55,7 @@ ANCHORS = [("rig.bitfield", "BitField._assign_field",
 
 
 def plan(tier):
-    n = 120 if tier == "quick" else 15000
+    n = 1500 if tier == "quick" else 150000
     return [(c, n) for c in CLASSES]
 
 
